@@ -114,8 +114,10 @@ class Symbol(Node):  # pylint: disable=too-few-public-methods
     """
 
     def get_str_repr(self, sons_repr):
-        # Operators that are part of the symbol have to stay escaped
-        return "".join("\\" + char if char in SPECIAL_SYMBOLS else char
+        # Operators that are part of the symbol have to stay escaped, the
+        # space (which separates symbols) and the backslash as well
+        return "".join("\\" + char
+                       if char in SPECIAL_SYMBOLS or char in " \\" else char
                        for char in str(self.value))
 
     def get_cfg_rules(self, current_symbol, sons):
